@@ -383,7 +383,8 @@ theorem resolve_sound_selfcontained (env : Env) (fuel : Nat) (root : NodeId) (ba
 
 /-- D, in general.  Assumption (`LoaderFresh`, the model's "fresh nodes per document"): the Loader's
     documents share no schema object with the root document or with each other.  Then every `$ref` of
-    `root.all()` has a recorded target, and it is the designated one among the documents the resolution
+    `root.all()` (and, as its initial lexical target, every `$dynamicRef`) has a recorded target, and it
+    is the designated one among the documents the resolution
     touched (`docs`: the root document with the retrieval URI `b`, and Loader documents, each with the
     URI it was loaded from): the reference is resolved against the base URI of its schema; the
     fragment-less URI identifies a resource of the root document, or the root of one of `docs`; the
@@ -393,19 +394,29 @@ theorem resolve_sound (env : Env) (fuel : Nat) (root : NodeId) (base : String) (
     ∃ b docs, retrievalOf base = .ok b ∧
       (∀ e ∈ docs, e.1.st = env.st ∧ ((e.1.root = root ∧ e.2 = b) ∨
         ∃ tbl, env.loader = some tbl ∧ Json.lookup (Uri.toString e.2) tbl = some (.doc e.1.root))) ∧
-      ∀ id ∈ allNodes env.st (env.st.size + 2) [root], ∀ n, env.st.get? id = some n → n.ref ≠ "" →
-        ∃ info t, lookupNat id rs.infos = some info ∧ info.resolvedRef = some t ∧
-          DesignatesAmong docs ⟨env.st, rs.draft, root⟩ b id n.ref t := by
+      ∀ id ∈ allNodes env.st (env.st.size + 2) [root], ∀ n, env.st.get? id = some n →
+        (n.ref ≠ "" → ∃ info t, lookupNat id rs.infos = some info ∧ info.resolvedRef = some t ∧
+          DesignatesAmong docs ⟨env.st, rs.draft, root⟩ b id n.ref t) ∧
+        (n.dynamicRef ≠ "" → ∃ info t, lookupNat id rs.infos = some info ∧ info.resolvedDynamicRef = some t ∧
+          DesignatesAmong docs ⟨env.st, rs.draft, root⟩ b id n.dynamicRef t) := by
   obtain ⟨s, b, d, rets, hb, hret, _, _, hg, hok⟩ := resolve_G env fuel root base rs hfresh h
   refine ⟨b, docsOf env rets s, hb, ?_, ?_⟩
   · have := docsOf_spec env root rets s hg
     rw [hret] at this
     exact this
-  · intro id hid n hn hne
-    obtain ⟨info, t, hi, ht, hdes⟩ := hok id hid n hn hne
-    have := gDesig_among env rets s _ id n.ref t hdes
-    rw [show (⟨env.st, rs.draft, root⟩ : Doc).root = root from rfl, hret] at this
-    exact ⟨info, t, hi, ht, this⟩
+  · intro id hid n hn
+    obtain ⟨h1, h2⟩ := hok id hid n hn
+    constructor
+    · intro hne
+      obtain ⟨info, t, hi, ht, hdes⟩ := h1 hne
+      have := gDesig_among env rets s _ id n.ref t hdes
+      rw [show (⟨env.st, rs.draft, root⟩ : Doc).root = root from rfl, hret] at this
+      exact ⟨info, t, hi, ht, this⟩
+    · intro hne
+      obtain ⟨info, t, hi, ht, hdes⟩ := h2 hne
+      have := gDesig_among env rets s _ id n.dynamicRef t hdes
+      rw [show (⟨env.st, rs.draft, root⟩ : Doc).root = root from rfl, hret] at this
+      exact ⟨info, t, hi, ht, this⟩
 
 end designation
 
@@ -550,7 +561,7 @@ example : ∃ b docs, DesignatesAmong docs ⟨exStore, .d2020, 0⟩ b 1 "other.j
     simp only [Bool.and_eq_true, beq_iff_eq] at hc
     obtain ⟨hdraft, h1⟩ := hc
     obtain ⟨b, docs, _, _, hall⟩ := resolve_sound exEnv 5 0 "" rs exEnv_fresh hr
-    obtain ⟨info, t, hi, ht, hd⟩ := hall 1 (by decide +kernel) { ref := "other.json#/$defs/x" } rfl (by decide)
+    obtain ⟨info, t, hi, ht, hd⟩ := (hall 1 (by decide +kernel) { ref := "other.json#/$defs/x" } rfl).1 (by decide)
     rw [hi] at h1
     simp only [Option.bind_some, ht, Option.some.injEq] at h1
     subst h1
